@@ -32,7 +32,7 @@ Proof.
 Qed.
 
 Lemma proxy_monitor_accepts_model base secret secure origin_form host clock now :
-  mac_wf mac -> host_plain host = true -> host <> [] -> (clock <= now <= clock + 5)%Z ->
+  mac_wf mac -> host_plain host = true -> host <> [] -> (clock <= now <= clock + 60)%Z ->
   let r := proxy_sign_out mac base secret secure origin_form host now in
   proxy_holds mac {| po_base := base; po_secret := secret; po_secure := secure; po_origin_form := origin_form;
                      po_host := host; po_clock := clock; po_ts := now; po_status := p_status r;
@@ -44,7 +44,7 @@ Proof.
   destruct (loc_fields mac base secret (url_string (proxy_scheme secure origin_form) host) now) as [E1 [E2 E3]].
   cbn [get_sign_out_url l_params] in E1, E2, E3. rewrite E1, E2, E3.
   rewrite !str_eqb_refl. cbn [map fst]. rewrite strs_eqb_refl. cbn [andb].
-  replace (clock <=? now)%Z with true by lia. replace (now <=? clock + 5)%Z with true by lia.
+  replace (clock <=? now)%Z with true by lia. replace (now <=? clock + 60)%Z with true by lia.
   change ((302 =? 302)%Z) with true. cbn [andb]. rewrite !andb_true_r.
   destruct origin_form.
   - rewrite (url_string_origin_form secure host Hp). unfold SignOut_proofs.colon_slash_slash, colon_slash_slash.
